@@ -34,10 +34,10 @@ Print Assumptions C17_next_connection_served.
    connection, which is closed) once Shutdown has been signalled; still running otherwise *)
 Theorem C17_result : forall rs delay n,
   match snd (accept_loop rs delay n) with
-  | RErr => exists pre rest, rs = pre ++ APerm false :: rest /\ Forall (fun r => r = ATemp false \/ r = AConn false) pre
-  | RNil => exists pre r rest, rs = pre ++ r :: rest /\ Forall (fun r => r = ATemp false \/ r = AConn false) pre /\
+  | ARErr => exists pre rest, rs = pre ++ APerm false :: rest /\ Forall (fun r => r = ATemp false \/ r = AConn false) pre
+  | ARNil => exists pre r rest, rs = pre ++ r :: rest /\ Forall (fun r => r = ATemp false \/ r = AConn false) pre /\
                                (r = ATemp true \/ r = APerm true \/ r = AConn true)
-  | RRunning => Forall (fun r => r = ATemp false \/ r = AConn false) rs
+  | ARRunning => Forall (fun r => r = ATemp false \/ r = AConn false) rs
   end.
 Proof. exact result_classification. Qed.
 Print Assumptions C17_result.
